@@ -649,6 +649,9 @@ fn build_for(lhs: &AstNode, rhs: &AstNode) -> Result<Evaluator> {
       match evaluator {
         IterationContextEvaluator::Single(name, evaluator_single) => {
           let value = evaluator_single(scope);
+          if let Value::Null(_) = value {
+            return value_null!("expected a list or a value as an iteration domain, actual value is null");
+          }
           if matches!(&value, Value::List(values) if values.as_vec().is_empty()) {
             // the cartesian product of the domains is empty when any domain is empty
             return Value::List(Values::default());
@@ -783,6 +786,9 @@ fn build_every(lhs: &AstNode, rhs: &AstNode) -> Result<Evaluator> {
       let mut expression_evaluator = EveryExpressionEvaluator::new();
       for (name, expr_evaluator) in &expr_evaluators {
         let value = expr_evaluator(scope);
+        if let Value::Null(_) = value {
+          return value_null!("expected a list or a value as an iteration domain, actual value is null");
+        }
         if matches!(&value, Value::List(values) if values.as_vec().is_empty()) {
           // the cartesian product of the domains is empty when any domain is empty
           return Value::Boolean(true);
@@ -1623,6 +1629,9 @@ fn build_some(lhs: &AstNode, rhs: &AstNode) -> Result<Evaluator> {
       let mut expression_evaluator = SomeExpressionEvaluator::new();
       for (name, expr_evaluator) in &expr_evaluators {
         let value = expr_evaluator(scope);
+        if let Value::Null(_) = value {
+          return value_null!("expected a list or a value as an iteration domain, actual value is null");
+        }
         if matches!(&value, Value::List(values) if values.as_vec().is_empty()) {
           // the cartesian product of the domains is empty when any domain is empty
           return Value::Boolean(false);
